@@ -18,29 +18,74 @@ Open Scope R_scope.
 
 (** * 1. Characterising lemmas: generated kernel step = hand model *)
 
+(** The characterising lemmas must survive behaviour-preserving rewrites of the Python source
+    (x**0.5 <-> sqrt, s*s hoisted, 0.5*x <-> x/2, -(a*b) <-> -a*b, hoisted common sums, ...), which
+    change the helper definitions step3d__k and the shape of every expression.  So nothing below
+    refers to a helper by name or to the shape of an expression: everything generated is unfolded
+    through the hint databases, the NON-RATIONAL atoms (sin, sqrt, inverses of non-constant terms)
+    are brought to the canonical folded forms of the hand model (h_sin, h_w, h_cos, h_x, h_re, h_rn)
+    by proving their ARGUMENTS equal as rational expressions, all remaining inverses are
+    abstracted into variables, and the goal is closed by [ring] / [field] over numerals only. *)
+
+Ltac unf_gen := unfold nb_gravity_g; repeat autounfold with step3d_db nb_gravity_db.
+
+Ltac const_nz := repeat split; try apply PI_neq0; try (intro; lra).
+
+(* abstract every inverse of a non-numeral into a variable, then decide the rational identity *)
+Ltac abs_inv :=
+  unfold Rdiv;
+  repeat match goal with |- context [/ ?d] =>
+    lazymatch d with IZR _ => fail | _ => idtac end;
+    let i := fresh "inv" in set (i := / d) in * end.
+Ltac rat_eq := abs_inv; first [ reflexivity | ring | field; const_nz ].
+
+(* equalities of rational expressions that hold without side conditions *)
+Ltac ring_div := unfold Rdiv; first [ ring | ring_simplify; reflexivity | rat_eq ].
+
+Ltac fold_sin lat :=
+  repeat match goal with |- context [sin ?a] =>
+    replace (sin a) with (h_sin lat)
+      by (unfold h_sin; first [ reflexivity | f_equal; unfold Rdiv; first [ ring | field; const_nz ] ]) end.
+
+Ltac fold_sqrt lat :=
+  repeat match goal with |- context [sqrt ?a] =>
+    first [ replace (sqrt a) with (h_w lat) by (unfold h_w, h_x, E2_; f_equal; rat_eq)
+          | replace (sqrt a) with (h_cos lat) by (unfold h_cos; f_equal; rat_eq) ] end.
+
+Ltac unf_slow := unfold h_rn, h_re, h_re0, h_x, A_, E2_.
+
+Ltac fold_inv lat alt :=
+  repeat match goal with |- context [/ ?d] =>
+    lazymatch d with
+    | IZR _ => fail | PI => fail
+    | h_w _ => fail | h_x _ => fail | h_cos _ => fail | h_re _ _ => fail | h_rn _ _ => fail
+    | _ => idtac end;
+    first [ replace d with (h_w lat) by (unf_slow; rat_eq)
+          | replace d with (h_x lat) by (unf_slow; rat_eq)
+          | replace d with (h_cos lat) by (unf_slow; rat_eq)
+          | replace d with (h_re lat alt) by (unf_slow; rat_eq)
+          | replace d with (h_rn lat alt) by (unf_slow; rat_eq) ] end.
+
+(* canonical form of everything generated *)
+Ltac gen_norm lat alt := unf_gen; unfold Rdiv; fold_sin lat; fold_sqrt lat; fold_inv lat alt.
+
+(* the hand model down to the same atoms *)
 Ltac unf_hand :=
   unfold hand_lat, hand_lon, hand_alt, hand_xi1, hand_xi2, hand_xi3, hand_VNa, hand_VEa, hand_VDa,
     hand_VN, hand_VE, hand_VD,
     h_newlat, h_newlon, h_newalt, h_avg, h_newVN, h_newVE, h_newVD, h_dvn, h_xi1, h_xi2, h_xi3,
-    h_chi1, h_chi2, h_chi3, h_rho3, h_rho1, h_rho2, h_Om1, h_Om2, h_Om3, h_re, h_rn, h_re0, h_x,
-    h_tan, h_cos, h_sin;
-  rewrite ?one_minus_E2; unfold A_, E2_, RATE_.
-
-(* equalities of rational expressions that hold without side conditions *)
-Ltac ring_div := unfold Rdiv; first [ ring | ring_simplify; reflexivity ].
+    h_chi1, h_chi2, h_chi3, h_rho3, h_rho1, h_rho2, h_Om1, h_Om2, h_Om3, h_tan, h_gravity, h_g0;
+  unfold RATE_, GE_, FG_, A_.
 
 Lemma gravity_char lat alt : nb_gravity_g lat alt = h_gravity lat alt.
-Proof.
-  unfold nb_gravity_g, h_gravity, h_g0, h_sin. autounfold with nb_gravity_db.
-  unfold GE_, FG_, E2_, A_. first [ reflexivity | ring_div ].
-Qed.
+Proof. gen_norm lat alt. unf_hand. rat_eq. Qed.
 
 Section Char.
 Variables dt lat lon alt VN VE VD C00 C01 C02 C10 C11 C12 C20 C21 C22 th0 th1 th2 dv0 dv1 dv2 : R.
 Notation ARGS f :=
   (f dt lat lon alt VN VE VD C00 C01 C02 C10 C11 C12 C20 C21 C22 th0 th1 th2 dv0 dv1 dv2) (only parsing).
 
-Ltac char_pv := rewrite ?gravity_char; autounfold with step3d_db; unf_hand; ring_div.
+Ltac char_pv := gen_norm lat alt; unf_hand; rat_eq.
 
 Lemma step3d_lat_char : ARGS step3d_lat = ARGS hand_lat.
 Proof. unfold step3d_lat. char_pv. Qed.
@@ -71,9 +116,9 @@ Ltac xi_args :=
       | hand_xi1 _ _ _ _ _ _ _ _ _ _ _ _ _ _ _ _ _ _ _ _ _ _ => fail
       | _ => idtac
       end;
-      replace a with (ARGS hand_xi1) by (rewrite ?gravity_char; autounfold with step3d_db; unf_hand; ring_div);
-      replace b with (ARGS hand_xi2) by (rewrite ?gravity_char; autounfold with step3d_db; unf_hand; ring_div);
-      replace c with (ARGS hand_xi3) by (rewrite ?gravity_char; autounfold with step3d_db; unf_hand; ring_div)
+      replace a with (ARGS hand_xi1) by char_pv;
+      replace b with (ARGS hand_xi2) by char_pv;
+      replace c with (ARGS hand_xi3) by char_pv
   end.
 Ltac char_att := xi_args; unfold h_att, h_rc; ring.
 
@@ -122,17 +167,17 @@ Proof. unfold W2, h_x, h_sin, d2r. ring. Qed.
 
 Lemma h_rn_eq lat alt : h_rn lat alt = nav_Rn lat + alt.
 Proof.
-  unfold h_rn, h_re0, nav_Rn, R_meridian. rewrite W2_h_x.
+  unfold h_rn, h_re0, h_w, nav_Rn, R_meridian. rewrite W2_h_x.
   pose proof (h_x_pos lat). assert (0 < sqrt (h_x lat)) by (apply sqrt_lt_R0; assumption).
   field. split; lra.
 Qed.
 
 Lemma h_re_eq lat alt : h_re lat alt = nav_Re lat + alt.
-Proof. unfold h_re, h_re0, nav_Re, R_transverse. rewrite W2_h_x. reflexivity. Qed.
+Proof. unfold h_re, h_re0, h_w, nav_Re, R_transverse. rewrite W2_h_x. reflexivity. Qed.
 
 Lemma h_rn_pos lat alt : -1000000 <= alt -> 0 < h_rn lat alt.
 Proof.
-  intro Ha. unfold h_rn, h_re0.
+  intro Ha. unfold h_rn, h_re0, h_w.
   pose proof (h_x_pos lat) as Hx. pose proof (h_x_le1 lat) as Hx1.
   set (q := sqrt (h_x lat)).
   assert (Hq : 0 < q) by (apply sqrt_lt_R0; assumption).
@@ -148,7 +193,7 @@ Qed.
 
 Lemma h_re_pos lat alt : -1000000 <= alt -> 0 < h_re lat alt.
 Proof.
-  intro Ha. unfold h_re, h_re0.
+  intro Ha. unfold h_re, h_re0, h_w.
   pose proof (h_x_pos lat) as Hx. pose proof (h_x_le1 lat) as Hx1.
   set (q := sqrt (h_x lat)).
   assert (Hq : 0 < q) by (apply sqrt_lt_R0; assumption).
@@ -160,7 +205,11 @@ Proof.
 Qed.
 
 Lemma h_gravity_eq lat alt : h_gravity lat alt = normal_gravity (lat * d2r) alt.
-Proof. unfold h_gravity, h_g0, normal_gravity, h_sin, d2r. reflexivity. Qed.
+Proof.
+  unfold h_gravity, h_g0, h_w, normal_gravity.
+  replace (h_x lat) with (1 - E2_ * (sin (lat * d2r) * sin (lat * d2r))) by (unfold h_x, h_sin, d2r; ring).
+  unfold h_sin, d2r. reflexivity.
+Qed.
 
 Lemma h_Om1_eq lat : -90 < lat < 90 -> h_Om1 lat = nav_Omega_N lat.
 Proof. intro H. unfold h_Om1, nav_Omega_N. rewrite (h_cos_eq _ H). reflexivity. Qed.
@@ -187,20 +236,19 @@ Ltac unf_p1 := unfold mat_from_rotvec_m00__p1, mat_from_rotvec_m01__p1, mat_from
   mat_from_rotvec_m20__p1, mat_from_rotvec_m21__p1, mat_from_rotvec_m22__p1;
   repeat autounfold with mat_from_rotvec_db.
 
-(* small rotation vectors take the polynomial branch *)
-Lemma mfr_small_branch (x y z : R) (P0 P1 : R) :
-  x * x + y * y + z * z < 1 / 1000000 ->
-  (if Rgt_dec (mat_from_rotvec__0 x y z) (1 / 1000000) then P0 else P1) = P1.
-Proof.
-  intro H. unfold mat_from_rotvec__0. destruct (Rgt_dec _ _) as [G|G]; [exfalso; lra | reflexivity].
-Qed.
+(* small rotation vectors take the polynomial branch; the condition term is whatever the translator
+   printed for norm2 (it is only unfolded through the hint database, never named) *)
+Lemma if_not_gt (n k P0 P1 : R) : ~ n > k -> (if Rgt_dec n k then P0 else P1) = P1.
+Proof. intro H. destruct (Rgt_dec n k); [contradiction | reflexivity]. Qed.
 
 Lemma mfr_at_0 :
   mat_from_rotvec_m00 0 0 0 = 1 /\ mat_from_rotvec_m01 0 0 0 = 0 /\ mat_from_rotvec_m02 0 0 0 = 0 /\
   mat_from_rotvec_m10 0 0 0 = 0 /\ mat_from_rotvec_m11 0 0 0 = 1 /\ mat_from_rotvec_m12 0 0 0 = 0 /\
   mat_from_rotvec_m20 0 0 0 = 0 /\ mat_from_rotvec_m21 0 0 0 = 0 /\ mat_from_rotvec_m22 0 0 0 = 1.
 Proof.
-  unf_mfr. rewrite !mfr_small_branch by lra. unf_p1. repeat split; field.
+  unf_mfr.
+  rewrite !if_not_gt by (repeat autounfold with mat_from_rotvec_db; intro G; first [ lra | nra ]).
+  unf_p1. repeat split; field.
 Qed.
 
 (** R(v(t)) for a differentiable curve v with v(0) = 0: value I and derivative [v'(0) x] at t = 0. *)
@@ -225,15 +273,19 @@ Proof.
 Qed.
 
 Ltac near0 :=
-  apply (is_derive_ext_loc _ _ 0 _
-           (filter_imp _ _ (fun t H => eq_sym (mfr_small_branch (a t) (b t) (c t) _ _ H)) norm2_small_near0));
-  unf_p1;
-  auto_derive; [repeat split; trivial; eexists; eassumption|];
-  let E := fresh "E" in
-  assert (E : Derive (fun x => a x) 0 = a') by (apply is_derive_unique; exact Da); rewrite ?E; clear E;
-  assert (E : Derive (fun x => b x) 0 = b') by (apply is_derive_unique; exact Db); rewrite ?E; clear E;
-  assert (E : Derive (fun x => c x) 0 = c') by (apply is_derive_unique; exact Dc); rewrite ?E; clear E;
-  rewrite ?Ha0, ?Hb0, ?Hc0; field.
+  match goal with |- is_derive (fun t => if Rgt_dec (@?N t) _ then @?P0 t else @?P1 t) 0 _ =>
+    apply (is_derive_ext_loc P1)
+  end;
+  [ apply (filter_imp (fun t => a t * a t + b t * b t + c t * c t < 1 / 1000000)); [|exact norm2_small_near0];
+    intros t Ht; cbv beta; symmetry; apply if_not_gt;
+    repeat autounfold with mat_from_rotvec_db; intro G; first [ lra | nra ]
+  | cbv beta; unf_p1;
+    auto_derive; [repeat split; trivial; eexists; eassumption|];
+    let E := fresh "E" in
+    assert (E : Derive (fun x => a x) 0 = a') by (apply is_derive_unique; exact Da); rewrite ?E; clear E;
+    assert (E : Derive (fun x => b x) 0 = b') by (apply is_derive_unique; exact Db); rewrite ?E; clear E;
+    assert (E : Derive (fun x => c x) 0 = c') by (apply is_derive_unique; exact Dc); rewrite ?E; clear E;
+    rewrite ?Ha0, ?Hb0, ?Hc0; field ].
 
 Lemma mfr_m00_near0 : is_derive (fun t => mat_from_rotvec_m00 (a t) (b t) (c t)) 0 (skew00 a' b' c').
 Proof. unfold mat_from_rotvec_m00, skew00. near0. Qed.
